@@ -56,6 +56,57 @@ theorem c12_exact_partial (base ppm total inv : Nat) (ht : total < U64) (hm : in
         · intro h; congr 1; rw [decide_eq_true_eq]; omega
         · intro h; congr 1; rw [decide_eq_false_iff_not]; omega
 
+/-- Monotone in what the sender holds: a set that is sufficient stays sufficient when more arrives
+    (as long as the held total still is a 64-bit amount — the sum is checked, fix F8). Needs no
+    hypothesis on `amount·ppm`: `true` was answered, so the product fitted. -/
+theorem c12_mono_total (base ppm total total' inv : Nat)
+    (h : feeSufficient base ppm total inv = .ok true) (hle : total ≤ total') :
+    feeSufficient base ppm total' inv = .ok true := by
+  unfold feeSufficient at h ⊢
+  by_cases h1 : total < inv
+  · rw [if_pos h1] at h; simp at h
+  · rw [if_neg h1] at h
+    by_cases h2 : inv * ppm ≥ U64
+    · rw [if_pos h2] at h; simp at h
+    · rw [if_neg h2] at h
+      by_cases h3 : feeMsat base ppm inv ≥ U64
+      · rw [if_pos h3] at h; simp at h
+      · rw [if_neg h3] at h
+        by_cases h4 : inv + feeMsat base ppm inv ≥ U64
+        · rw [if_pos h4] at h; simp at h
+        · rw [if_neg h4] at h
+          simp only [Res.ok.injEq, decide_eq_true_eq] at h
+          rw [if_neg (by omega), if_neg h2, if_neg h3, if_neg h4]
+          congr 1; rw [decide_eq_true_eq]; omega
+
+/-- Antitone in the policy: what suffices under a policy suffices under any cheaper one
+    (operators lowering `base`/`ppm` never turn an accepted set into a rejected one). -/
+theorem c12_anti_policy (base base' ppm ppm' total inv : Nat)
+    (h : feeSufficient base ppm total inv = .ok true) (hb : base' ≤ base) (hp : ppm' ≤ ppm) :
+    feeSufficient base' ppm' total inv = .ok true := by
+  have hmul : inv * ppm' ≤ inv * ppm := Nat.mul_le_mul_left inv hp
+  have hdiv : inv * ppm' / 1000000 ≤ inv * ppm / 1000000 := Nat.div_le_div_right hmul
+  unfold feeSufficient at h ⊢
+  by_cases h1 : total < inv
+  · rw [if_pos h1] at h; simp at h
+  · rw [if_neg h1] at h
+    by_cases h2 : inv * ppm ≥ U64
+    · rw [if_pos h2] at h; simp at h
+    · rw [if_neg h2] at h
+      by_cases h3 : feeMsat base ppm inv ≥ U64
+      · rw [if_pos h3] at h; simp at h
+      · rw [if_neg h3] at h
+        by_cases h4 : inv + feeMsat base ppm inv ≥ U64
+        · rw [if_pos h4] at h; simp at h
+        · rw [if_neg h4] at h
+          simp only [Res.ok.injEq, decide_eq_true_eq] at h
+          unfold feeMsat ratePart at h h3 h4 ⊢
+          rw [if_neg h1, if_neg (by omega), if_neg (by omega), if_neg (by omega)]
+          congr 1; rw [decide_eq_true_eq]; omega
+
+example : feeSufficient 1000 5000 1006000 1000000 = .ok true ∧ 1006000 ≤ 2000000 ∧ 500 ≤ 1000 := by
+  decide
+
 /-- What the code does when `amount·ppm` does not fit: it answers `false`. -/
 theorem c12_mul_overflow_false (base ppm total inv : Nat) (hm : inv * ppm ≥ U64) :
     feeSufficient base ppm total inv = .ok false := by
